@@ -5,6 +5,7 @@ import (
 	"fmt"
 	"os"
 
+	"verif/harness/internal/c05"
 	"verif/harness/internal/c07"
 	"verif/harness/internal/core"
 )
@@ -12,6 +13,7 @@ import (
 type checkFn func(*core.Ctx) (map[string]any, []string, error)
 
 var checks = map[string]checkFn{
+	"C05": c05.Check,
 	"C07": c07.Check,
 }
 
